@@ -577,6 +577,23 @@ where
             orc.push(format!("ghost{}x{}", id, c));
         }
     }
+    if op == "iter_nth" || op == "iter_nth_back" {
+        // C06: `nth(k)` / `nth_back(k)` consume exactly the k skipped elements and the one they return: inside the
+        // call the library may drop skipped elements only (the requested one is returned or stays in the iterator),
+        // whatever a destructor does
+        let front = get_usize(kv, "front").unwrap_or(0);
+        let back = get_usize(kv, "back").unwrap_or(N::USIZE);
+        let k = get_usize(kv, "arg").unwrap_or(0);
+        let m = k.min(back - front);
+        let allowed: Vec<u64> = if op == "iter_nth" { (front..front + m).map(|i| i as u64 + 1).collect() } else { (back - m..back).map(|i| i as u64 + 1).collect() };
+        for e in raw.iter().take_while(|e| e.as_str() != "|") {
+            if let Some(id) = e.strip_prefix("drop:").and_then(|s| s.parse::<u64>().ok()) {
+                if !allowed.contains(&id) {
+                    orc.push(format!("dropped-unskipped{}", id));
+                }
+            }
+        }
+    }
     if op == "clone" && o.res == "ok" {
         // Clone is element-wise: exactly N calls of T::clone, on a[0], a[1], … in order
         let calls: Vec<u64> = raw.iter().filter_map(|e| e.strip_prefix("clone:")).map(|r| r.split(':').nth(1).unwrap().split('>').next().unwrap().parse().unwrap()).collect();
